@@ -321,6 +321,26 @@ theorem lin_exec {db0 : Db C R D} (s : S C R W D) (t : Tid) (i : Instr R W D) (r
     simp only [exec]
     exact quiet _ (fun u hu => by simp [upd_other _ _ _ _ hu]) rfl rfl rfl rfl rfl rfl (by simp) (by simp)
       (by simp) (fun _ _ => rfl) rfl
+  | sessBase sid b =>
+    simp only [exec]
+    exact quiet _ (fun u hu => by simp [upd_other _ _ _ _ hu]) rfl rfl rfl rfl rfl rfl (by simp) (by simp)
+      (by simp) (fun _ _ => rfl) rfl
+  | finChk sid =>
+    simp only [exec]
+    split
+    · -- the finish is refused: the continuation becomes "drop the session, return the error"; the thread has no write section
+      have hnone : (s.thr t).op = none := by
+        rcases wsOf_cases s t with ⟨hw, _⟩ | ⟨hw, _⟩ | ⟨hw, _⟩ | ⟨hw, _, hop⟩ <;> rw [hw] at ht <;> simp [wf] at ht
+        exact hop
+      have hnw : s.wbit ≠ some t := by
+        rcases wsOf_cases s t with ⟨hw, _⟩ | ⟨hw, _⟩ | ⟨hw, _⟩ | ⟨hw, h2, _⟩ <;> rw [hw] at ht <;> simp [wf] at ht
+        exact h2
+      refine lin_quiet ops h (fun u hu => by simp [upd_other _ _ _ _ hu]) (fun _ _ => Iff.rfl) rfl rfl rfl rfl
+        (by simp) (fun hw => absurd hw hnw) (fun hw => absurd hw hnw) ?_
+      intro hno
+      exact ⟨hno, rfl, fun hop => by simp [hnone] at hop⟩
+    · exact quiet _ (fun u hu => by simp [upd_other _ _ _ _ hu]) rfl rfl rfl rfl rfl rfl (by simp) (by simp)
+        (by simp) (fun _ _ => rfl) rfl
   | ret r =>
     simp only [exec]
     have hrest : rest = [] := by
